@@ -52,7 +52,7 @@ def run(case):
     desc = "%s%s of %s rows %s [%s receiver]" % (op, "(%d)" % j if op == "getcol" else "", dt, short([r.tolist() for r in rows], 200), recv)
     if op in ("sum0", "np.sum0"):
         exp = np.array([(int(np.sum(np.array(c, dtype=bool))) if dt.kind == "b" else (sum(int(x) for x in c) if dt.kind in "iu" else float(np.sum(np.array(c, dtype=np.float64))))) for c in cols])
-        a = attempt(lambda: ra.sum(axis=0) if op == "sum0" else np.sum(ra, axis=0))
+        a = attempt(lambda: ra.sum(axis=0) if op == "sum0" else (np.sum(ra, axis=0) if j % 2 == 0 else np.sum(ra, 0)))
     elif op in ("mean0", "np.mean0"):
         exp = np.array([float(np.mean(np.array(c, dtype=np.float64))) for c in cols])
         a = attempt(lambda: ra.mean(axis=0) if op == "mean0" else np.mean(ra, axis=0))
